@@ -19,13 +19,13 @@ RULE = ('seeded acyclic workbooks (vp.wbgen.dag: 4-16 cells + optional CSE array
         'ground-truth dependant; distinct = by (workbook shape, configuration, op sequence).')
 BUDGET = {'quick': 40, 'thorough': 480}
 FLOORS = {
-    'quick': {'histories': 150, 'compares': 5000, 'value_changing_writes': 800,
-              'trans:number->blank': 20, 'trans:0->FALSE': 3, 'trans:1->TRUE': 3,
-              'trans:blank->number': 10, 'write_before_dependant_built': 20,
-              'cfg:mem': 20, 'cfg:xlsx': 20, 'cfg:yml': 5, 'cfg:json': 5, 'cfg:pkl': 5,
-              'dependant_compares_after_write': 1000, 'failed_builds': 15, 'formula_cells_overwritten_after_a_failed_build': 15,
-              'real_book_histories': 25, 'big_workbook_histories': 3,
-              'real_value_compares': 350},
+    'quick': {'histories': 60, 'compares': 2000, 'value_changing_writes': 300,
+              'trans:number->blank': 8, 'trans:0->FALSE': 2, 'trans:1->TRUE': 2,
+              'trans:blank->number': 4, 'write_before_dependant_built': 8,
+              'cfg:mem': 8, 'cfg:xlsx': 8, 'cfg:yml': 2, 'cfg:json': 2, 'cfg:pkl': 2,
+              'dependant_compares_after_write': 400, 'failed_builds': 5, 'formula_cells_overwritten_after_a_failed_build': 5,
+              'real_book_histories': 5, 'big_workbook_histories': 3,
+              'real_value_compares': 60},
     'thorough': {'histories': 3000, 'compares': 100000, 'trans:0->FALSE': 50, 'trans:1->TRUE': 50,
                  'trans:number->blank': 300, 'trans:blank->number': 200,
                  'write_before_dependant_built': 300, 'cfg:xlsx': 300, 'cfg:pkl': 100},
